@@ -213,3 +213,59 @@ func VerifC39_get() {
 	}
 	ca.Close()
 }
+
+// VerifC39_concurrent: two first Gets race on a fresh client. Whatever the interleaving, every
+// lock this client takes carries the id it registered and keeps alive (c.id) — a lock under any
+// other id would look like a dead holder's lock to other clients once that id expires.
+func VerifC39_concurrent() {
+	stub := &verifAsideStub{b: cmds.NewBuilder(cmds.NoSlot)}
+	useLua := verifChoose(2) == 1
+	cc, err := NewClient(ClientOption{UseLuaLock: useLua, ClientTTL: time.Second, ClientBuilder: func(opt rueidis.ClientOption) (rueidis.Client, error) {
+		return stub, nil
+	}})
+	verifAssert(err == nil, "client constructed")
+	ca := cc.(*Client)
+	var lockIDs []string
+	var markers []string
+	stub.answer = func(argv []string) rueidis.RedisResult {
+		switch {
+		case argv[0] == "CACHED":
+			return rueidis.NewResult(verifNil(), nil) // miss
+		case argv[0] == "SET" && strings.HasPrefix(argv[1], PlaceholderPrefix):
+			markers = append(markers, argv[1])
+			return rueidis.NewResult(verifStr('+', "OK"), nil)
+		case argv[0] == "SET":
+			lockIDs = append(lockIDs, argv[2])
+			return rueidis.NewResult(verifNil(), nil) // acquired
+		case argv[0] == "EVALSHA" || argv[0] == "EVAL":
+			args := argv[4:]
+			if len(args) == 2 { // acquireLock
+				lockIDs = append(lockIDs, args[0])
+				return rueidis.NewResult(verifNil(), nil)
+			}
+			return rueidis.NewResult(verifStr('+', "OK"), nil)
+		}
+		return rueidis.NewResult(verifStr('+', "OK"), nil)
+	}
+	get := func(key string) {
+		v, err := ca.Get(context.Background(), time.Minute, key, func(ctx context.Context, k string) (string, error) {
+			return "loaded-" + k, nil
+		})
+		verifAssert(err == nil && v == "loaded-"+key, "Get returns the loaded value")
+	}
+	verifGo("get1", func() { get("k1") })
+	verifGo("get2", func() { get("k2") })
+	verifJoin()
+	ca.mu.Lock()
+	id := ca.id
+	ca.mu.Unlock()
+	verifAssert(id != "" && len(lockIDs) == 2, "both Gets took their lock")
+	for _, l := range lockIDs {
+		verifAssert(l == id, "every lock is taken under the id the client registered and keeps alive")
+	}
+	if len(markers) > 1 && markers[0] != markers[1] {
+		verifReach("raced")
+	}
+	verifReach("done")
+	ca.Close()
+}
